@@ -154,7 +154,8 @@ def generate(rng, tier, idx):
         if rng.random() < 0.2:
             # the ORIGINAL object is put to other use (refitted on other data, reseeded,
             # sampled); a copy made earlier must go on behaving as the original did then
-            ops.append({'op': 'disturb_original', 'm': m, 'state': rng.randrange(2**31)})
+            ops.append({'op': rng.choice(['disturb_original', 'disturb_copy']), 'm': m,
+                        'state': rng.randrange(2**31)})
     return {'population': pop, 'ops': ops, 'g0': rng.randrange(2**31)}
 
 
@@ -329,6 +330,9 @@ def execute(run):
             if op['op'] == 'disturb_original':
                 _disturb_original(ctx, rec, op)
                 continue
+            if op['op'] == 'disturb_copy':
+                _disturb_copy(ctx, rec, op)
+                continue
             kind, spec = rec['kind'], rec['spec']
             cls_short = zoo.short(spec['cls'])
             opts = ','.join(sorted(spec.get('ctor') or {})) or '-'
@@ -433,3 +437,37 @@ def _disturb_original(ctx, rec, op):
     # the original is now another model: later hops start from the current copy only
     rec['orig'] = rec['cur']
     ctx.event('disturb_original', keys)
+
+
+def _disturb_copy(ctx, rec, op):
+    """The symmetric case: the COPY is refitted on other data; the object it was made from must
+    go on behaving as before."""
+    if not rec['fitted'] or rec['cur'] is rec['orig'] or not rec['hops']:
+        return
+    kind, spec = rec['kind'], rec['spec']
+    if type(rec['cur']) is not type(rec['orig']):
+        return                                    # a wrapper became its family: other ctor
+    d2 = dict(spec['data'])
+    d2['seed'] = (d2.get('seed', 1) * 17 + 3) % (2**31)
+    if d2.get('kind') == 'table':
+        d2['pattern'] = 'neg' if d2.get('pattern') != 'neg' else 'chain'
+    if d2.get('kind') == 'pobs':
+        d2['tau'] = 0.2 if abs(d2.get('tau', 0.5)) > 0.3 else 0.6
+    if d2.get('kind') == 'uni':
+        d2['loc'] = d2.get('loc', 0.0) - 2.0
+    data2 = zoo.gen_data(d2)
+    with sterile(op['state']):
+        o = outcome(zoo.fit_model, rec['cur'], spec, data2)
+    ctx.probes['copy_refitted_source_checked'] += 1
+    b = obs.observe(rec['orig'], kind, rec['data'])
+    keys = [k for k in obs.diff(rec['obs0'], b) if k not in ('class', 'selected')]
+    ctx.stats['twin_comparisons'] += 1
+    if keys:
+        ctx.violate('original_independent_of_copy', spec['cls'] + '.from_dict',
+                    'after the copy made by %s was refitted the ORIGINAL changed in %s'
+                    % ('>'.join(rec['hops']), keys), cls=zoo.short(spec['cls']),
+                    via=rec['hops'][-1], differs=keys)
+    # the copy is now another model: continue from the original
+    rec['cur'] = rec['orig']
+    rec['hops'] = []
+    ctx.event('disturb_copy', outcome_class(o), keys)
